@@ -19,6 +19,9 @@ def run(ctx, sess):
     from .common import relay
     from . import c16 as _src_c16
     relay(ctx, sess, _src_c16.run, {'C16.7': 'C17.8'})
+    ctx.rule('C17.12', 'an unclosed original shows what its copy shows: the rebuild on open accepts every SUMMARY the writer produces, also the 4 x f64 entries of 32- and 64-bit types (shared with C03.v) - the copy re-issues every DATA chunk whatever the rebuild made of the index')
+    from . import c03 as _src_c03
+    relay(ctx, sess, _src_c03.run, {'C03.v': 'C17.12'}, minimum=1)
     P = sess.prog('default')
     f = P.fn('jls_copy')
     ctx.saw(f)
